@@ -58,6 +58,78 @@ def scripted(answer, run):
         sys.stdout, sys.stderr = old_out, old_err
 
 
+class Monitor(object):
+    """event log of one run: every scripted question with its answer and
+    every open-for-writing / rename onto a path below wd, with whether the
+    path existed at that moment"""
+
+    def __init__(self, wd):
+        self.wd = os.path.realpath(wd)
+        self.events = []
+
+    def _rel(self, path):
+        try:
+            p = os.path.realpath(os.fspath(path))
+        except TypeError:
+            return None
+        if p.startswith(self.wd + os.sep):
+            return os.path.relpath(p, self.wd)
+        return None
+
+    def __enter__(self):
+        import io as _io
+        self._open, self._ioopen = builtins.open, _io.open
+        self._replace, self._rename = os.replace, os.rename
+        self._hook = cli.PROMPT_HOOK
+        mon = self
+
+        def opener(file, mode="r", *a, **k):
+            if isinstance(mode, str) and any(c in mode for c in "wxa+"):
+                rel = mon._rel(file) if not isinstance(file, int) else None
+                if rel is not None:
+                    mon.events.append(("write", rel, os.path.exists(file)))
+            return mon._open(file, mode, *a, **k)
+
+        def mover(orig):
+            def f(src, dst, *a, **k):
+                rel = mon._rel(dst)
+                if rel is not None:
+                    mon.events.append(("write", rel, os.path.exists(dst)))
+                return orig(src, dst, *a, **k)
+            return f
+        builtins.open = opener
+        _io.open = opener
+        os.replace, os.rename = mover(self._replace), mover(self._rename)
+        cli.PROMPT_HOOK = lambda prompt, ans: mon.events.append(
+            ("prompt", prompt, ans))
+        return self
+
+    def __exit__(self, *exc):
+        import io as _io
+        builtins.open, _io.open = self._open, self._ioopen
+        os.replace, os.rename = self._replace, self._rename
+        cli.PROMPT_HOOK = self._hook
+        return False
+
+    def unconfirmed(self):
+        """writes onto an existing path that were not preceded (since the
+        last write to that path) by a question answered 'y'"""
+        out = []
+        for k, ev in enumerate(self.events):
+            if ev[0] != "write" or not ev[2] or ev[1].endswith(".log"):
+                continue
+            ans = None
+            for prev in reversed(self.events[:k]):
+                if prev[0] == "write" and prev[1] == ev[1]:
+                    break
+                if prev[0] == "prompt":
+                    ans = prev[2]
+                    break
+            if ans != "y":
+                out.append((ev[1], ans))
+        return out
+
+
 def snapshot_dir(wd):
     out = {}
     for root, _, files in os.walk(wd):
@@ -191,6 +263,35 @@ def scenarios():
     add("writer:table", _writer(lambda t, w: pb.save_df_as_table(
         pb.trajectory_stats_to_df(_traj()), t, confirm_overwrite=w)),
         "out.csv", pathtypes=("str", "path"))
+    # the same writers with the flag handed over by position, and the plot
+    # writers with the flag left at its default (which is "ask")
+    add("writer:tum-positional", _writer(
+        lambda t, w: fi.write_tum_trajectory_file(t, _traj(), w)),
+        "outp.tum", pathtypes=("str", "path"))
+    add("writer:kitti-positional", _writer(
+        lambda t, w: fi.write_kitti_poses_file(t, _traj(), w)),
+        "outp.kitti", pathtypes=("str", "path"))
+    add("writer:res-positional", _writer(
+        lambda t, w: fi.save_res_file(t, _result(), w)), "outp.zip",
+        pathtypes=("str", "path"))
+
+    def table_positional(t, w):
+        from evo.tools.settings import SETTINGS
+        pb.save_df_as_table(pb.trajectory_stats_to_df(_traj()), t,
+                            SETTINGS.table_export_format,
+                            SETTINGS.table_export_transpose, w)
+    add("writer:table-positional", _writer(table_positional), "outp.csv")
+    add("writer:plot-pdf-positional", _writer(lambda t, w: _figs().export(
+        str(t), w)), "plotsp.pdf", cost="plot")
+    add("writer:serialize-positional", _writer(
+        lambda t, w: _figs().serialize(str(t), w)), "plotsp.pickle",
+        cost="plot")
+    add("writer:plot-pdf-default", _writer(
+        lambda t, w: _figs().export(str(t)) if w else _figs().export(
+            str(t), confirm_overwrite=False)), "plotsd.pdf", cost="plot")
+    add("writer:serialize-default", _writer(
+        lambda t, w: _figs().serialize(str(t)) if w else _figs().serialize(
+            str(t), confirm_overwrite=False)), "plotsd.pickle", cost="plot")
     add("writer:plot-pdf", _writer(lambda t, w: _figs().export(
         str(t), confirm_overwrite=w)), "plots.pdf", cost="plot")
     add("writer:plot-png", _writer(lambda t, w: _figs().export(
@@ -240,6 +341,12 @@ def scenarios():
         add("evo_%s:serialize_plot" % tool, _cli(
             tool, lambda t, base=base: base + ["--serialize_plot", t]),
             "p.ser", cost="plot", needs_inputs=True)
+        # one path given to two output options: the second writer finds the
+        # file the first one has just written - an existing path
+        add("evo_%s:serialize_plot+save_results-same-path" % tool, _cli(
+            tool, lambda t, base=base: base + ["--serialize_plot", t,
+                                               "--save_results", t]),
+            "both.out", cost="plot", needs_inputs=True)
     tb = ["tum", "est1.txt", "est2.txt", "--ref", "ref.txt"]
     add("evo_traj:save_as_tum", _cli("traj", lambda t: tb + ["--save_as_tum"]),
         "est1.tum", outputs=lambda t: ["est1.tum", "est2.tum", "ref.tum"],
@@ -326,7 +433,13 @@ def scenarios():
 ALWAYS_CONFIRMS = {"evo_config:generate", "evo_config:generate-tilde"}
 # scenarios in which evo may fail or write elsewhere (the path is unusual);
 # only "existing files stay untouched unless confirmed" is demanded
-LENIENT = {"evo_config:generate-tilde"}
+LENIENT = {"evo_config:generate-tilde",
+           "evo_ape:serialize_plot+save_results-same-path",
+           "evo_rpe:serialize_plot+save_results-same-path"}
+# ... judged by the event monitor: every write onto a path that exists at
+# that moment needs a question answered 'y' since the last write to it
+MONITORED = {"evo_ape:serialize_plot+save_results-same-path",
+             "evo_rpe:serialize_plot+save_results-same-path"}
 # evo_fig additionally asks whether to overwrite its *input* file
 EXTRA_PROMPT_TARGET = {"evo_fig:save_plot": "in.ser",
                        "evo_fig:serialize_plot": "in.ser"}
@@ -414,8 +527,14 @@ def run_history(name, pathtype, initial, history, wd=None):
         if name in LEADING_QUESTION and warn:
             # go on ('y') at the leading question, then the answer under test
             answer = ("y", ow_answer)
-        r = S["run"](wd, target, answer, warn)
+        with Monitor(wd) as mon:
+            r = S["run"](wd, target, answer, warn)
         answer = ow_answer
+        if name in MONITORED and warn:
+            for path, ans in mon.unconfirmed():
+                msgs.append("%s step %d: existing file %s was written %s" %
+                            (name, step, path, "without any question" if ans
+                             is None else "although the answer was %r" % ans))
         after = snapshot_dir(wd)
         existed = [o for o in outputs if o in before]
         confirm = warn
@@ -425,7 +544,8 @@ def run_history(name, pathtype, initial, history, wd=None):
             declined = confirm and answer != "y"
             asked = len(r.prompts) > 0
             for o in existed:
-                if after.get(o) != before[o] and (declined or not asked):
+                if confirm and after.get(o) != before[o] and (
+                        declined or not asked):
                     msgs.append("%s: existing file %s was replaced %s" %
                                 (where, o, "although the answer was %r" %
                                  answer if asked else "without any question"))
